@@ -1,6 +1,25 @@
-(* Props/C06.v -- placeholder while the proofs are being written: one sanity Example *)
-From Coq Require Import ZArith List.
+(* Props/C06.v -- the assignment solver.  Statements only; proofs live in Proofs/Munkres*.v.
+   Full-strength statement: Proofs/MunkresSpec.v, munkres_correct_statement (terminates AND returns a complete
+   minimum-cost matching for every rectangular non-negative integer matrix).  It is being proved in two halves,
+   munkres_partial_correct_statement and munkres_terminates_statement; the theorems below are what is
+   machine-checked so far. *)
+From Coq Require Import ZArith List Permutation.
 From Verif.Model Require Import Munkres.
+From Verif.Proofs Require Import MunkresDuality MunkresSpec.
 Import ListNotations.
-Example C06_ex_3x3 : computeZ [[4;1;3];[2;0;5];[3;2;2]]%Z = Some [(0,1);(1,0);(2,2)].
+
+(* optimality certificate: potentials + a perfect matching on zeros of the reduced matrix *)
+Theorem C06_weak_duality : forall (n : nat) (M C : nat -> nat -> Z) (u v : nat -> Z) (star tau : list nat),
+  (forall i j, (i < n)%nat -> (j < n)%nat -> M i j = (C i j + u i + v j)%Z) ->
+  (forall i j, (i < n)%nat -> (j < n)%nat -> (0 <= C i j)%Z) ->
+  Permutation star (seq 0 n) -> Permutation tau (seq 0 n) ->
+  (forall i, (i < n)%nat -> C i (nth i star 0%nat) = 0%Z) ->
+  (asg_sum M star <= asg_sum M tau)%Z.
+Proof. exact weak_duality. Qed.
+
+Example C06_ex_3x3 : computeZ [[4;1;3];[2;0;5];[3;2;2]]%Z = Some [(0,1);(1,0);(2,2)]%nat.
 Proof. vm_compute. reflexivity. Qed.
+
+Example C06_ex_rectangular : computeZ [[4;1;3;9];[2;0;5;1]]%Z = Some [(0,1);(1,3)]%nat
+  /\ computeZ [[4;1];[2;0];[3;7]]%Z = Some [(1,1);(2,0)]%nat.
+Proof. vm_compute. split; reflexivity. Qed.
